@@ -389,7 +389,7 @@ def teardown_owners(ctx, rule):
     """who may drop the socket halves / reset the handshake state of a connection"""
     P = ctx.P
     ctx.rule(rule, 'the connection gives up its socket and its handshake state only in close(): no read or write wrapper does so on an error of the transport - '
-             'a read that timed out at a frame boundary has consumed nothing, the caller simply reads again, and every frame the peer sends afterwards must still be delivered', floor=2)
+             'a read that timed out at a frame boundary has consumed nothing, the caller simply reads again, and every frame the peer sends afterwards must still be delivered', floor=1)
     OWNED = ('edp_client::transport::FramedTransport::close', 'edp_client::state_machine::HandshakeStateMachine::disconnect')
     # (connect: giving up the socket of a handshake that failed concerns a connection that was never up)
     OWNERS = ('edp_client::connection::Connection::close', 'edp_client::connection::Connection::disconnect', 'edp_client::connection::Connection::connect', '<edp_client::connection::Connection as core::ops::Drop>::drop')
